@@ -227,20 +227,20 @@ Lemma fanout_ack_iff_quorum : forall n nrep q ft rs, q + ft = nrep + 1 ->
   (forall s, (s < n)%nat -> responses_of s rs = nrep) ->
   (fanout n q ft rs = Some Ack <-> quorum_everywhere n q rs = true).
 Proof.
-  intros n nrep q ft rs Hsum Hwf. unfold fanout. rewrite shape_holds.
+  intros n nrep q ft rs Hsum Hwf. unfold fanout.
   rewrite <- (ack_iff_quorum n nrep q ft Hsum rs Hwf).
   split; [intro H; inversion H; reflexivity|intro H; rewrite H; reflexivity].
 Qed.
 
 Lemma fanout_defined : forall n q ft rs, exists r, fanout n q ft rs = Some r.
-Proof. intros. unfold fanout. rewrite shape_holds. eexists; reflexivity. Qed.
+Proof. intros. unfold fanout. eexists; reflexivity. Qed.
 
 Lemma fanout_ack_after_quorum : forall n nrep q ft rs, q + ft = nrep + 1 ->
   (forall s, (s < n)%nat -> responses_of s rs = nrep) ->
   fanout n q ft rs = Some Ack ->
   exists k, (k <= List.length rs)%nat /\ quorum_everywhere n q (firstn k rs) = true.
 Proof.
-  intros n nrep q ft rs Hsum Hwf H. unfold fanout in H. rewrite shape_holds in H.
+  intros n nrep q ft rs Hsum Hwf H. unfold fanout in H.
   inversion H as [Hl]. eapply ack_prefix_quorum; eauto.
 Qed.
 
@@ -322,14 +322,14 @@ Lemma handle_pred : forall rf rep place ws, 1 <= rf -> 0 <= rep ->
   exists o, handle rf rep place ws = Some o
     /\ (o = OAck -> rep <= rf ->
         quorum_everywhere (List.length place) (success_threshold rf rep) (resps_of place ws) = true
-        /\ exists k, (k <= List.length ws)%nat /\ forall d obs, (k <= d)%nat ->
-             pred_ok (CAck rf rep place ws obs 200 d) = true)
+        /\ exists k, (k <= List.length ws)%nat /\ forall d obs obsr, (k <= d)%nat ->
+             pred_ok (CAck rf rep place ws obs obsr 200 d) = true)
     /\ (o = OFail -> quorum_everywhere (List.length place) (success_threshold rf rep) (resps_of place ws) = false).
 Proof.
   intros rf rep place ws Hrf Hrep Hwf. unfold handle.
   destruct (Nat.eqb_spec (List.length place) 0) as [E0|E0].
   - exists OAck. split; [reflexivity|]. split; [|discriminate]. intros _ Hle.
-    rewrite E0. split; [reflexivity|]. exists 0%nat. split; [lia|]. intros d obs _. cbn [pred_ok].
+    rewrite E0. split; [reflexivity|]. exists 0%nat. split; [lia|]. intros d obs obsr _. cbn [pred_ok].
     rewrite E0. destruct (negb (rep >? rf)); reflexivity.
   - destruct (rep >? rf) eqn:Er.
     + exists OBadReplica. split; [reflexivity|]. split; discriminate.
@@ -342,7 +342,7 @@ Proof.
         split; [apply (fanout_ack_iff_quorum n nrep q ft rs Hsum Hwf); exact E|].
         destruct (fanout_ack_after_quorum n nrep q ft rs Hsum Hwf E) as [k [Hk Hqk]].
         exists k. split; [unfold rs, resps_of in Hk; rewrite map_length in Hk; exact Hk|].
-        intros d obs Hd. cbn [pred_ok]. rewrite Er. cbn [Z.eqb Pos.eqb negb andb].
+        intros d obs obsr Hd. cbn [pred_ok]. rewrite Er. cbn [Z.eqb Pos.eqb negb andb].
         rewrite (spec_threshold_is rf rep Hrf). fold n q rs. eapply quorum_firstn_mono; eauto.
       * exists OFail. split; [reflexivity|]. split; [discriminate|]. intros _.
         destruct (quorum_everywhere n q rs) eqn:Eq; [|reflexivity].
